@@ -75,6 +75,27 @@ def run (fx : String) (hist : String) : String :=
 
 
 
+/-- `nsform <p=u,p=u|-> <attr 0|1> <N|A|E|U<u>>`: how the serialiser writes a pair under a mapping, and what that form
+denotes when parsed under the same mapping -/
+def runNsForm (dict attr ns : String) : String :=
+  let d : Option (List (Nat × Nat)) :=
+    if dict == "-" then some [] else
+    (dict.splitOn ",").mapM (fun kv => match kv.splitOn "=" with
+      | [k, v] => do let k ← k.toNat?; let v ← v.toNat?; pure (k, v)
+      | _ => none)
+  let nsv : Option NsV :=
+    if ns == "N" then some .none else if ns == "A" then some .any else if ns == "E" then some .empty
+    else if ns.startsWith "U" then (ns.drop 1).toNat?.map .uri else none
+  let showNs : NsV → String
+    | .none => "N" | .any => "A" | .empty => "E" | .uri u => s!"U{u}"
+  match d, nsv with
+  | some d, some nsv =>
+    let f := serForm d nsv
+    let fs := match f with | .bare => "B" | .star => "S" | .bar => "R" | .named p => s!"P{p}"
+    let back := match resolveForm d (attr == "1") f with | some n => showNs n | none => "undeclared"
+    s!"{fs};{back}"
+  | _, _ => "bad-op"
+
 /-- `cont <m|p> <history>`: child-kind bookkeeping of @media / @page -/
 def runCont (which : String) (hist : String) : String :=
   let forbid := if which == "m" then mediaForbids else pageForbids
